@@ -520,14 +520,12 @@ fn as_set(z: &[RR], mask_serial_at: Option<&str>) -> BTreeSet<RR> {
 
 // ------------------------------------------------------------------------------------------------
 // classes of the known deviations that are still open, computed from (zone before, prerequisites).
-// (Seven other deviations found by this check were repaired in /repo — known-findings.json `fixed` —
+// (Nine other deviations found by this check were repaired in /repo — known-findings.json `fixed` —
 // and are ordinary violations again.)
 // ------------------------------------------------------------------------------------------------
 
 pub const CL_PRE_LOOKUP: &str = "prereq-uses-query-lookup";
 pub const CL_PRE_SUBSET: &str = "prereq-value-dependent-subset";
-pub const CL_NULL: &str = "null-rdata-accepted-as-empty";
-pub const CL_MAILX: &str = "maila-mailb-accepted-in-update";
 pub const T_NULL: u16 = 10;
 pub const T_MAILB: u16 = 253;
 pub const T_MAILA: u16 = 254;
@@ -547,23 +545,11 @@ fn parent_tok(n: &str) -> Option<String> {
 struct Triggers {
     pre_lookup: bool,
     pre_subset: bool,
-    /// a class ANY / NONE prerequisite of type NULL that carries RDATA
-    null_pre: bool,
-    /// a class ANY Update RR of type NULL that carries RDATA
-    null_upd: bool,
-    /// an Update RR of type MAILA / MAILB
-    mailx: bool,
 }
 
-fn triggers(before: &Snap, zname: &str, pre: &[MRR], upd: &[MRR]) -> Triggers {
+fn triggers(before: &Snap, zname: &str, pre: &[MRR]) -> Triggers {
     let z = &before.rrs;
-    let mut t = Triggers {
-        pre_lookup: false,
-        pre_subset: false,
-        null_pre: pre.iter().any(|r| r.rtype == T_NULL && r.rd != "-" && (r.class == C_ANY || r.class == C_NONE)),
-        null_upd: upd.iter().any(|r| r.rtype == T_NULL && r.rd != "-" && r.class == C_ANY),
-        mailx: upd.iter().any(|r| r.rtype == T_MAILA || r.rtype == T_MAILB),
-    };
+    let mut t = Triggers { pre_lookup: false, pre_subset: false };
     for rr in pre {
         if !rr.in_zone {
             continue;
@@ -644,7 +630,7 @@ pub fn judge(origin: &Name, before: &Snap, after: &Snap, pre: &[Record], upd: &[
     let zname = name_tok(&lower_name(origin));
     let pre_m: Vec<MRR> = pre.iter().map(|r| mrr(origin, r)).collect();
     let upd_m: Vec<MRR> = upd.iter().map(|r| mrr(origin, r)).collect();
-    let t = triggers(before, &zname, &pre_m, &upd_m);
+    let t = triggers(before, &zname, &pre_m);
     let mut fails: Vec<(String, String)> = vec![];
     let accepted = stage == "apply" && (res == "ok0" || res == "ok1");
     let changed = as_set(&before.rrs, Some(&zname)) != as_set(&after.rrs, Some(&zname));
@@ -654,7 +640,7 @@ pub fn judge(origin: &Name, before: &Snap, after: &Snap, pre: &[Record], upd: &[
     }
     // --- prerequisites judged against the zone as it is now
     let pe = ref_prereq(&before.rrs, &pre_m);
-    let pre_cls = first(&[(t.null_pre, CL_NULL), (t.pre_lookup, CL_PRE_LOOKUP), (t.pre_subset, CL_PRE_SUBSET)]);
+    let pre_cls = first(&[(t.pre_lookup, CL_PRE_LOOKUP), (t.pre_subset, CL_PRE_SUBSET)]);
     if stage == "prereq" {
         if pe.is_empty() {
             fails.push((format!("prerequisites hold on the current zone (RFC 2136 §3.2) but the update was rejected with {res}"), pre_cls.into()));
@@ -667,7 +653,6 @@ pub fn judge(origin: &Name, before: &Snap, after: &Snap, pre: &[Record], upd: &[
     // --- prescan
     if stage != "prereq" {
         let se = ref_prescan(&upd_m);
-        let scan_cls = first(&[(t.null_upd, CL_NULL), (t.mailx, CL_MAILX)]);
         if stage == "apply" && !accepted && res != "panic" {
             // the prescan exists so that `update_records` (which journals first) cannot fail on the section
             fails.push((format!("update_records answered {res} after pre_scan had accepted the update section (its rows are already in the journal)"), "".into()));
@@ -679,7 +664,7 @@ pub fn judge(origin: &Name, before: &Snap, after: &Snap, pre: &[Record], upd: &[
                 fails.push((format!("prescan failure answered with {res}; RFC 2136 §3.4.1.3 gives one of {se:?}"), "".into()));
             }
         } else if !se.is_empty() {
-            fails.push((format!("update section must be rejected by the prescan ({se:?}) but was processed"), scan_cls.into()));
+            fails.push((format!("update section must be rejected by the prescan ({se:?}) but was processed"), "".into()));
         }
     }
     // --- a rejected message changes nothing
@@ -882,8 +867,8 @@ pub fn exec(line: &str, hist: &mut Hist, rec: &mut Recorder) {
             let zname = name_tok(&lower_name(&hist.origin));
             let pm: Vec<MRR> = p.iter().map(|r| mrr(&hist.origin, r)).collect();
             let pe = ref_prereq(&before.rrs, &pm);
-            let t = triggers(&before, &zname, &pm, &[]);
-            let cls = first(&[(t.null_pre, CL_NULL), (t.pre_lookup, CL_PRE_LOOKUP), (t.pre_subset, CL_PRE_SUBSET)]);
+            let t = triggers(&before, &zname, &pm);
+            let cls = first(&[(t.pre_lookup, CL_PRE_LOOKUP), (t.pre_subset, CL_PRE_SUBSET)]);
             let bad = if res == "ok" { !pe.is_empty() } else { !pe.contains(res.as_str()) };
             if bad {
                 rec.stat(&format!("oracle.fail.{}", if cls.is_empty() { "UNCLASSIFIED" } else { cls }));
